@@ -63,6 +63,66 @@ example : beginWithRetry 0 100 30 (some 50) = .acquired 60 ∧
           beginWithRetry 0 100 30 (some 110) = .acquired 120 ∧
           beginWithRetry 7 100 30 (some 3) = .acquired 7 := by decide
 
+/-! ### other contenders for the gate (snapshot, backup, integrity check come and go) -/
+
+/-- **With contenders, `BeginWithRetry` takes the gate at the first poll that finds it
+free**, and every earlier poll (at `start, start+interval, ...`, all before the deadline
+check fails) found it held by somebody. -/
+theorem contended_acquires_at_first_free_poll (start : Nat) (timeout interval : Int) (held : Nat → Bool) (t : Nat)
+    (h : beginWithRetryH start timeout interval held = .acquired t) :
+    held t = false ∧ ∃ n, t = start + n * effInterval interval ∧
+      ∀ j, j < n → held (start + j * effInterval interval) = true :=
+  let ⟨h1, n, hx, hall⟩ := loopH_acquired _ _ _ _ _ _ h
+  ⟨h1, n, hx, fun j hj => (hall j hj).1⟩
+
+/-- **With contenders, it gives up only after the deadline, and only if every poll —
+including one after the deadline — found the gate held.** -/
+theorem contended_fails_only_if_every_poll_held (start : Nat) (timeout interval : Int) (held : Nat → Bool) (t : Nat)
+    (h : beginWithRetryH start timeout interval held = .timedOut t) :
+    start + timeout.toNat < t ∧ t ≤ start + timeout.toNat + effInterval interval ∧
+    ∃ n, t = start + n * effInterval interval ∧ ∀ j, j ≤ n → held (start + j * effInterval interval) = true := by
+  have hiv := effInterval_pos interval
+  have hf := fuel_enough timeout.toNat (effInterval interval) hiv
+  obtain ⟨h1, _, h3, n, hx, hall⟩ := loopH_timedOut _ _ _ _ _ _ _ rfl (by omega) (by omega) h
+  exact ⟨h1, h3, n, hx, hall⟩
+
+/-- once the gate stays free from `r` on (the last contender has finished), it is obtained
+less than one retry interval after `max start r` and the call cannot fail if `r` is
+within the timeout -/
+theorem contended_prompt_once_free (start : Nat) (timeout interval : Int) (held : Nat → Bool) (r : Nat)
+    (hfree : ∀ t, r ≤ t → held t = false) :
+    (∀ t, beginWithRetryH start timeout interval held = .acquired t →
+      t < max start r + effInterval interval) ∧
+    (r ≤ start + timeout.toNat → ∃ t, beginWithRetryH start timeout interval held = .acquired t) := by
+  have hiv := effInterval_pos interval
+  constructor
+  · intro t h
+    obtain ⟨_, n, hx, hall⟩ := contended_acquires_at_first_free_poll _ _ _ _ _ h
+    cases n with
+    | zero => simp at hx; omega
+    | succ m =>
+      have hm := hall m (by omega)
+      have hlt : start + m * effInterval interval < r := by
+        rcases Nat.lt_or_ge (start + m * effInterval interval) r with h' | h'
+        · exact h'
+        · rw [hfree _ h'] at hm; cases hm
+      rw [Nat.succ_mul] at hx
+      omega
+  · intro hr
+    cases h : beginWithRetryH start timeout interval held with
+    | acquired t => exact ⟨t, rfl⟩
+    | timedOut t =>
+      obtain ⟨h1, _, n, hx, hall⟩ := contended_fails_only_if_every_poll_held _ _ _ _ _ h
+      have := hall n (Nat.le_refl _)
+      rw [← hx, hfree t (by omega)] at this
+      cases this
+
+/-- what the property's single-holder reading does NOT exclude: contenders that happen to
+hold the gate at every poll instant (here: at every multiple of the interval) make the call
+fail although the gate was free in between and no single operation ran for long -/
+theorem contenders_can_starve_witness :
+    beginWithRetryH 0 30 10 (fun t => t % 10 == 0) = .timedOut 40 := by decide
+
 /-! ### `Store.Close`, with the arguments found in the current sources -/
 
 /-- the arguments `Close` passes, as extracted: `BeginWithRetry("close", timeout, retryInterval)` -/
